@@ -875,14 +875,14 @@ class bpseq_elements_prefix:
                 " | assert implies(c and qual(E[y]), p0 <= y and x <= p1 and y < x)"
                 " | assert implies(c, p0 <= x and x <= p1)",
                 "assert 0 <= p0 and p0 <= p1 and p1 < n and E[p0].pair != 0 and E[p1].pair != 0"]},
-        {"when": "after", "at": "if stops[0] > 0", "label": "tail5",
+        {"when": "after", "at": "if stops[0]", "label": "tail5",
          "do": ["assert E[0].index_ == 1 and n > 0",
                 "assert implies(p0 > 0, len(single_strands) == 1 and single_strands[0].is5p and not single_strands[0].is3p)",
                 "assert implies(p0 > 0, strand_of(single_strands[0].strand, self.entries[: p0 + 1], DB))",
                 "assert implies(p0 > 0, strand_at(single_strands[0].strand, E, DB, 0, p0 + 1))",
                 "assert implies(not (p0 > 0), len(single_strands) == 0)",
                 "let SS5 = single_strands"]},
-        {"when": "after", "at": "if stops[-1] < len(self.entries) - 1", "label": "tail3",
+        {"when": "after", "at": "if stops[-1]", "label": "tail3",
          "do": ["let m3 = len(single_strands) - 1", "let has3 = p1 < n - 1",
                 "assert E[p1].index_ == p1 + 1 and stops[-1] == p1",
                 "assert len(single_strands) == len(SS5) + ite(has3, 1, 0)",
@@ -911,7 +911,7 @@ class bpseq_elements_prefix:
                 "assert_last 6 candidate[0] is E[p] and candidate[len(candidate) - 1] is E[q] and candidate[-1] is E[q]",
                 "assert E[p].index_ == p + 1 and E[q].index_ == q + 1",
                 "let HP0 = hairpins", "let LC0 = loop_candidates"]},
-        {"when": "before", "at": "if candidate[0].pair == candidate[-1].index_", "loop": 1, "label": "interior",
+        {"when": "before", "at": "if candidate[0].pair", "loop": 1, "label": "interior",
          "do": ["assert_last 1 forall(lambda t: implies(0 <= t and t < len(C1), C1[t].pair == 0))",
                 "assert len(C1) == q - p - 1",
                 "forall t | assert implies(0 <= t and t < q - p - 1, C1[t] is E[p + 1 + t])",
